@@ -28,13 +28,23 @@ def run(prog, rep):
             rep.part(generic, prog, rep, fam)
             continue
         rep.part(ctor, prog, rep, fam)
-        mi = MleInfo(prog, fam)
+        mi = rep.part(MleInfo, prog, fam)
+        if mi is None:
+            continue
         rep.analysed(mi.fn)
         rep.part(mle, prog, rep, fam, mi)
         rep.part(unmap, prog, rep, fam, mi)
     rep.part(lsq, prog, rep)
     rep.part(cond, prog, rep)
     rep.part(writers, prog, rep, fams)
+    # a fixed parameter of a conditional distribution must also REACH the template unchanged at evaluation time:
+    # the parameter lookup and the forwarding of C08 are filed here too
+    from vstat.report import Relabel
+    from . import c08
+    flow = Relabel(rep, "C11.evalflow")
+    for part in (c08.values, c08.forward):
+        rep.part(part, prog, flow)
+    rep.expect_min("C11.evalflow", 6)
     rep.expect_min("C11.ctor", 17)
     rep.expect_min("C11.mle", 17)
     rep.expect_min("C11.unmap", 15)
@@ -119,6 +129,8 @@ def mle(prog, rep, fam, mi):
         return
     if mi.kw_name is None:
         rep.fail("C11.mle", f"{fam.ci.qualname}._fit_mle:kwargs", site, "no ** keyword dict is passed to scipy fit: fixed parameters cannot reach the optimiser")
+        return
+    if not mi.shared_keywords(rep, "C11.mle"):
         return
     valid = scipyinfo.all_fit_keys(dist)
     sig = scipyinfo.positional_signature(dist)
